@@ -10,9 +10,10 @@ bare `cast()`, `setOriginPoint` without `setEndPoint`, bare `next` calls between
   bit-identical arithmetic) are compared exactly — that is where a changed tie-break shows.
 * oracle(): the property on the implementation's outputs — length, start cell, face-adjacency, bounds,
   eps-inflated segment/cell intersection of every visited cell, end-cell rule, history independence.
-  Failures caused by the recorded defect "ill-conditioned-axis" (see `_ill_conditioned_axis`) get that kind and the
-  fields `dir_ratio`, `axis`, `sub`, `T`, `dim`, `coord_over_r`; two fixed witness cases and a random `straddle` ray
-  kind make every run visit that class.
+  A chain that leaves the grid or does not end in the end point's cell is always a failure (the former finding
+  "ill-conditioned-axis" was repaired in /repo by 5c8bf28: `next` never selects an axis whose crossings are all
+  done); its two witness inputs are regression cases in corpus/C14/, and the random `straddle` ray kind keeps
+  visiting that class (rays parallel to an axis up to a few ulp that straddle a cell border on that axis).
 """
 import math
 import vlib
@@ -34,11 +35,10 @@ ASSUMPTIONS = ['theorems are over the reals (and RN for the coincident case) wit
                'eps = (L1+8)*machine_eps*range + 8*machine_eps*max|coordinate|',
                'the probe takes the cell geometry from the implementation\'s own centre table (first centre per axis), i.e. it '
                'checks the rays against the grid as built; that the grid covers the requested extent is C13',
-               'recorded finding `ill-conditioned-axis`: on a ray with a direction component of a few ulp that straddles (or all '
-               'but touches) a cell border on that axis, the rounding of the first crossing parameter is amplified by '
-               '1/|direction component| and the real code overshoots by a cell (also out of the grid).  Such failures are reported '
-               'under that kind only when the offending cell lies within eps + amplified error of the segment; the theorems (exact '
-               'arithmetic) exclude the behaviour, the Lean Float model reproduces it bit for bit']
+               'scalar-generic counting theorems (length, face adjacency, index box, end cell) hold for every scalar type under '
+               'stated residual hypotheses on the comparisons (strict order; a non-exhausted axis keeps a crossing parameter below '
+               'the sentinel; step sign agrees with the index order); for Float/Float32 these hypotheses are not provable in Lean '
+               '(opaque types) and are covered by the correspondence check and the probe']
 EXPLANATION = ('proof over the reals of length / start / face-adjacency / crossing / bounds / end-cell / history independence on '
                'the Lean model + differential correspondence on cast sequences (float and double, 2D and 3D) + geometric probe')
 
@@ -331,26 +331,8 @@ def _exact_case(rng, T, dim, idx):
     return {'name': 'exact-%s%d-%d' % (T, dim, idx), 'lines': lines, 'meta': {'exact': True, 'T': T, 'dim': dim}}
 
 
-def _witness_cases():
-    """fixed inputs of the recorded finding `ill-conditioned-axis` (both end in a cell outside the grid on the
-    unrepaired code), so that every run exercises that class deterministically"""
-    return [
-        {'name': 'witness-ill-conditioned-d2', 'meta': {'T': 'd', 'dim': 2, 'witness': True}, 'lines': [
-            # extent [-3.2844032589065977, 3.2844032589065977]^2, r = 0.6568806517813195 (11 x 11 cells);
-            # origin (-1.6422016294532988, 2.8029582160404836), end (-1.6422016294532986, -3.2844032589065977):
-            # x differs by 1 ulp across the border between cells 2 and 3 -> ... 2:0 2:(0-1)
-            'ray.new d 2 d13837950274301266314 d13837950274301266314 d4614578237446490506 d4614578237446490506 d4604091874462454894',
-            'ray.origin d13833446674673895818 d4613494119588664904',
-            'ray.castto d13833446674673895817 d13837950274301266314']},
-        {'name': 'witness-ill-conditioned-f3', 'meta': {'T': 'f', 'dim': 3, 'witness': True}, 'lines': [
-            # extent [-1.5134206, 1.5134206]^3, r = 0.33631572 (9^3 cells); z differs by 3 ulp across a border -> x index 0-1
-            'ray.new f 3 s3215975556 s3215975556 s3215975556 s1068491908 s1068491908 s1068491908 s1051714692',
-            'ray.castoe s1068491908 s3187951470 s1057221472 s3215975556 s1068491908 s1057221475']},
-    ]
-
-
 def gen_cases(rng, tier):
-    cases = _witness_cases()
+    cases = []
     n_cases = 1200 if tier == 'quick' else 12000
     n_exact = 250 if tier == 'quick' else 2500
     for ci in range(n_cases):
@@ -745,59 +727,14 @@ def _segment_meets_cell(geo, c, o, e, eps):
     return True
 
 
-def _ill_conditioned_axis(geo, o, e, ocell):
-    """The axis (if any) whose first crossing parameter (voxelBorder - origin) / direction is dominated by rounding.
-    The border and the origin coordinate carry ~2 ulp of the extent's magnitude each (`err_b`, a length); dividing by the
-    direction component |e_i - o_i| / range amplifies this to `amp = err_b * range / |e_i - o_i|` (a length along the
-    ray).  It only matters when the crossing is (nearly) needed, i.e. when the origin is within |e_i - o_i| + rounding
-    of the border in the direction of travel: the ray straddles — or all but touches — a cell border on an axis it is
-    nearly perpendicular to.  Returns (amp, |e_i - o_i| / range, axis) of the worst such axis, or None."""
-    rng_ = math.sqrt(sum((x - y) ** 2 for x, y in zip(o, e)))
-    m = EPS[geo['T']]
-    r, c0 = geo['r'], geo['c0']
-    best = None
-    for i in range(geo['dim']):
-        d = e[i] - o[i]
-        if d == 0:
-            continue
-        err_b = 4 * m * (max(abs(geo['lo'][i]), abs(geo['hi'][i])) + r)    # centres are built from the snapped lower bound
-        s = 1 if d > 0 else -1
-        gap = s * (c0[i] + (ocell[i] + 0.5 * s) * r - o[i])          # origin -> first border in the direction of travel
-        if gap > abs(d) + 2 * err_b:
-            continue                                                 # that border is beyond the end: harmless
-        amp_i = err_b * rng_ / abs(d)
-        if best is None or amp_i > best[0]:
-            best = (amp_i, abs(d) / rng_, i)
-    return best
-
-
 def _check_chain(geo, o, e, ocell, ecell, chain, complete, bad0, stats):
     """the property on one chain (complete = produced by cast; otherwise the prefix produced by iterative next calls)"""
     dim = geo['dim']
     l1 = sum(abs(a - b) for a, b in zip(ocell, ecell))
     eps = _eps(geo, o, e, l1)
-    ill = _ill_conditioned_axis(geo, o, e, ocell)
-    amp = ill[0] if ill else 0.0
 
-    def bad(kind_, detail, cell=None, point=None, **fields):
-        # Finding "ill-conditioned-axis" (known_findings.json): a failure whose offending cell is still within
-        # eps + amp of the segment (resp. of the end point) on a ray with such an axis is that finding; it is reported
-        # under its own kind (`sub` = what went wrong, `dir_ratio` = |direction component| of the axis) so that it is
-        # tracked separately.  Every other failure keeps its generic kind.
-        explained = False
-        if amp > eps and kind_ in ('cell-not-crossed', 'out-of-bounds') and cell is not None:
-            explained = _segment_meets_cell(geo, cell, o, e, eps + amp)
-        elif amp > eps and kind_ == 'end-cell' and cell is not None:
-            explained = _cell_has_point(geo, cell, e, eps + amp)
-        if explained:
-            stats['ill_conditioned_failures'] = stats.get('ill_conditioned_failures', 0) + 1
-            stats['ill_conditioned_max_dir_ratio_' + geo['T']] = max(stats.get('ill_conditioned_max_dir_ratio_' + geo['T'], 0.0), ill[1])
-            cm = max(max(abs(x) for x in o), max(abs(x) for x in e))
-            bad0('ill-conditioned-axis', detail + ' [axis %d: |direction component| = %.3g, first-crossing rounding error amplified '
-                 'to %.3g = %.3g cells]' % (ill[2], ill[1], amp, amp / geo['r']),
-                 sub=kind_, dir_ratio=ill[1], axis=ill[2], coord_over_r=cm / geo['r'], **fields)
-        else:
-            bad0(kind_, detail, **fields)
+    def bad(kind_, detail, cell=None, **fields):
+        bad0(kind_, detail, **fields)
     stats['chains_checked'] = stats.get('chains_checked', 0) + 1
     ok = True
     if not chain:
